@@ -22,11 +22,12 @@ LEVEL_TEXT = ("Lean 4 theorems about the executable solver models: the matrix Q 
               "exactly 0 or at least the tolerance. Models tied to the C++ by differential correspondence on every "
               "index pair (Float with tolerance; exact rationals for the square-root-free regular envelope kernel) "
               "plus an exact rational oracle (reference generalised inverse) on the implementation's answers.")
-LEVEL_NOTE = ("Theorems are about exact arithmetic; IEEE rounding is not proved. For the envelope solver the regular case "
-              "(defect 0) is proved in full (Q = N^-1, q_bb, projector, redundancy sum); the singular case Q = T Q0 T' is "
-              "stated but only its factorisation part is proved — there the differential check and the oracle carry the "
-              "weight. The packed envelope profile (sparse inverse inside the envelope) is property C16's obligation; "
-              "the XML covariance band is checked at network level by C12.")
+LEVEL_NOTE = ("Theorems are about exact arithmetic; IEEE rounding is not proved. For the envelope solver both the regular case "
+              "(Q = N^-1) and the singular case (Q = T Q0 T' with the S-projector of the configured regularisation; "
+              "q_bb = A Q A' for every g-inverse, projector, diagonal in [0,1], redundancy sum m - n + defect) are proved, "
+              "for every ordering, with the homogenisation factor W (W'W = P) taken as given (C10) and the packed "
+              "envelope profile / sparse inverse inside the envelope replaced by its dense definition (C16). "
+              "The XML covariance band is checked at network level by C12.")
 TECHNIQUE = "Lean 4 proof (ordered-field algebra, induction over the factorisation loops) + model/implementation correspondence"
 MODELLED = ["IEEE rounding (proofs over exact ordered fields)",
             "envelope profile storage (dense model; C16 proves packed = dense)",
